@@ -209,6 +209,16 @@ func (f *casFileEntryFactory) ListNames(state FileState) ([]string, error) {
 		}
 		for _, info := range infos {
 			if depth == 0 {
+				// An entry exists only once its data file does (see Reload). A
+				// directory without one is what a crash leaves between the creation
+				// of the entry directory / its first metadata file and the rename of
+				// the data file into it, or half way through a delete.
+				if _, err := os.Stat(filepath.Join(dir, info.Name(), DefaultDataFileName)); err != nil {
+					if os.IsNotExist(err) {
+						continue
+					}
+					return err
+				}
 				names = append(names, info.Name())
 			} else {
 				if !info.IsDir() {
